@@ -3,7 +3,8 @@
 //! Text form (read by the Coq/OCaml side too):
 //!   `nq=2 pool=1 ev=1 gates=0 | D0[t] S1[t(D0[t])] | T0[t] E0`
 //! Ops:   D<q>[body] desync        S<q>[body] sync          T<q>[body] try_sync
-//!        F<q>[body]<mode> future_desync   mode: d detach | a await | s .sync() | k<n> poll n times then drop
+//!        F<q>[body]<mode> future_desync   mode: d detach | a await | s .sync() | k<n> poll n times then drop | k<n>l<m> poll n times, yield m times, then drop
+//!                         | i await on a run-on-wake executor (the waker polls the future inline on the waking thread)
 //!        Y<q>[body]<mode> future_sync     mode: a await | k<n> poll n times then drop
 //!        A<q>e<e><mode>  after(event e) mode as for F
 //!        U<q> suspend+await (resumer kept)   R resume   r drop the resumer
@@ -14,13 +15,15 @@
 //!        L<n> yield n times (lets the other threads settle)
 //!        Q<c> unpark caller c's thread (a stale wake-up token: park may always return spuriously)
 //!        V<e> block until event e   W wait until every started panic has finished unwinding   P<q> every scheduling attempt on q must panic
-//! Body:  t touch | w<e> await event (future bodies) | a<e>-<e2> await event e and fire e2 once the waker is registered | g<g> block on gate | p panic | s<e> fire event | (op) nested op
+//!        B<n> a Desync<u64> (no drop glue) with n queued operations is dropped: the drop must wait for all of them
+//! Body:  t touch | c yield co-operatively (wake the own waker, return Pending once) | o<e>-<e2> await event e or e2, whichever fires first (the other keeps a stale waker)
+//!        | w<e> await event (future bodies) | a<e>-<e2> await event e and fire e2 once the waker is registered | g<g> block on gate | p panic | s<e> fire event | (op) nested op
 
 #[derive(Clone, Debug, PartialEq)]
-pub enum Mode { Detach, Await, SyncWait, PollDrop(usize) }
+pub enum Mode { Detach, Await, SyncWait, PollDrop(usize), PollDropLate(usize, usize), Inline }
 
 #[derive(Clone, Debug, PartialEq)]
-pub enum Prim { Touch, AwaitEv(usize), AwaitEvSig(usize, usize), Gate(usize), Panic, Signal(usize), Nested(Box<Op>) }
+pub enum Prim { Touch, AwaitEv(usize), AwaitEvSig(usize, usize), CoopYield, AwaitEither(usize, usize), Gate(usize), Panic, Signal(usize), Nested(Box<Op>) }
 
 #[derive(Clone, Debug, PartialEq)]
 pub enum Op {
@@ -48,6 +51,7 @@ pub enum Op {
     AwaitRelease(usize),
     Noise(usize),
     Yield(usize),
+    PlainDrop(usize),
 }
 
 #[derive(Clone, Debug, PartialEq)]
@@ -64,7 +68,7 @@ impl Op {
 }
 
 fn fmt_mode(m: &Mode) -> String {
-    match m { Mode::Detach => "d".into(), Mode::Await => "a".into(), Mode::SyncWait => "s".into(), Mode::PollDrop(n) => format!("k{}", n) }
+    match m { Mode::Detach => "d".into(), Mode::Await => "a".into(), Mode::SyncWait => "s".into(), Mode::PollDrop(n) => format!("k{}", n), Mode::PollDropLate(n, m) => format!("k{}l{}", n, m), Mode::Inline => "i".into() }
 }
 fn fmt_body(b: &Vec<Prim>) -> String {
     let mut s = String::from("[");
@@ -73,6 +77,8 @@ fn fmt_body(b: &Vec<Prim>) -> String {
             Prim::Touch => s.push('t'),
             Prim::AwaitEv(e) => s.push_str(&format!("w{}", e)),
             Prim::AwaitEvSig(e, e2) => s.push_str(&format!("a{}-{}", e, e2)),
+            Prim::CoopYield => s.push('c'),
+            Prim::AwaitEither(e, e2) => s.push_str(&format!("o{}-{}", e, e2)),
             Prim::Gate(g) => s.push_str(&format!("g{}", g)),
             Prim::Panic => s.push('p'),
             Prim::Signal(e) => s.push_str(&format!("s{}", e)),
@@ -108,6 +114,7 @@ pub fn fmt_op(o: &Op) -> String {
         Op::AwaitRelease(k) => format!("Z{}", k),
         Op::Noise(c) => format!("Q{}", c),
         Op::Yield(n) => format!("L{}", n),
+        Op::PlainDrop(n) => format!("B{}", n),
     }
 }
 impl Program {
@@ -153,7 +160,7 @@ fn parse_num(cs: &[char], i: &mut usize) -> Result<usize, String> {
 fn parse_mode(cs: &[char], i: &mut usize) -> Result<Mode, String> {
     if *i >= cs.len() { return Err("mode expected".into()); }
     let c = cs[*i]; *i += 1;
-    match c { 'd' => Ok(Mode::Detach), 'a' => Ok(Mode::Await), 's' => Ok(Mode::SyncWait), 'k' => Ok(Mode::PollDrop(parse_num(cs, i)?)), _ => Err(format!("bad mode {}", c)) }
+    match c { 'd' => Ok(Mode::Detach), 'a' => Ok(Mode::Await), 's' => Ok(Mode::SyncWait), 'k' => { let n = parse_num(cs, i)?; if *i < cs.len() && cs[*i] == 'l' { *i += 1; Ok(Mode::PollDropLate(n, parse_num(cs, i)?)) } else { Ok(Mode::PollDrop(n)) } } 'i' => Ok(Mode::Inline), _ => Err(format!("bad mode {}", c)) }
 }
 fn parse_body(cs: &[char], i: &mut usize) -> Result<Vec<Prim>, String> {
     if *i >= cs.len() || cs[*i] != '[' { return Err("[ expected".into()); }
@@ -170,6 +177,8 @@ fn parse_body(cs: &[char], i: &mut usize) -> Result<Vec<Prim>, String> {
             'w' => b.push(Prim::AwaitEv(parse_num(cs, i)?)),
             'a' => { let e = parse_num(cs, i)?; expect_ch(cs, i, '-')?; b.push(Prim::AwaitEvSig(e, parse_num(cs, i)?)) }
             'g' => b.push(Prim::Gate(parse_num(cs, i)?)),
+            'c' => b.push(Prim::CoopYield),
+            'o' => { let e = parse_num(cs, i)?; expect_ch(cs, i, '-')?; b.push(Prim::AwaitEither(e, parse_num(cs, i)?)) }
             '(' => { let o = parse_op(cs, i)?; if *i >= cs.len() || cs[*i] != ')' { return Err(") expected".into()); } *i += 1; b.push(Prim::Nested(Box::new(o))); }
             _ => return Err(format!("bad prim {}", c))
         }
@@ -205,6 +214,7 @@ fn parse_op(cs: &[char], i: &mut usize) -> Result<Op, String> {
         'Z' => Op::AwaitRelease(parse_num(cs, i)?),
         'Q' => Op::Noise(parse_num(cs, i)?),
         'L' => Op::Yield(parse_num(cs, i)?),
+        'B' => Op::PlainDrop(parse_num(cs, i)?),
         _ => return Err(format!("bad op {}", c))
     })
 }
@@ -374,7 +384,13 @@ pub fn generate(p: &Profile, r: &mut Rng) -> Program {
             let mut k = r.below(total.max(1));
             let mut body = |r: &mut Rng, fut: bool, nev: &mut usize, fires: &mut Vec<usize>| -> Vec<Prim> {
                 let mut b = vec![Prim::Touch];
-                if fut && r.chance(p.awaits, 100) { b.push(Prim::AwaitEv(*nev)); fires.push(*nev); *nev += 1; b.push(Prim::Touch); }
+                if fut && r.chance(1, 8) { b.push(Prim::CoopYield); b.push(Prim::Touch); }
+                if fut && r.chance(p.awaits, 100) {
+                    // one in five awaits is select-like: two events, the one that fires second calls a stale waker
+                    if r.chance(1, 5) { b.push(Prim::AwaitEither(*nev, *nev + 1)); fires.push(*nev); fires.push(*nev + 1); *nev += 2; }
+                    else { b.push(Prim::AwaitEv(*nev)); fires.push(*nev); *nev += 1; }
+                    b.push(Prim::Touch);
+                }
                 if q + 1 < nq && r.chance(p.nested, 100) {
                     let q2 = q + 1 + r.below(nq - q - 1);
                     let inner = match r.below(3) { 0 => Op::Sync(q2, vec![Prim::Touch]), 1 => Op::TrySync(q2, vec![Prim::Touch]), _ => Op::Desync(q2, vec![Prim::Touch]) };
@@ -385,7 +401,8 @@ pub fn generate(p: &Profile, r: &mut Rng) -> Program {
             let fmode = |r: &mut Rng| -> Mode {
                 // a future that is polled (so that it runs the queue itself) and then dropped leaves the queue to the pool: with no
                 // pool thread nobody may ever run it again, which C07 excludes ("given at least one pool thread")
-                if pool >= 1 && r.chance(p.poll_drop, 100) { Mode::PollDrop(r.below(3)) } else { match r.below(4) { 0 => Mode::Detach, 1 => Mode::SyncWait, _ => Mode::Await } }
+                if pool >= 1 && r.chance(p.poll_drop, 100) { let n = r.below(3); if r.chance(1, 3) { Mode::PollDropLate(n, 2 + r.below(8)) } else { Mode::PollDrop(n) } }
+                else { match r.below(if pool >= 1 { 5 } else { 4 }) { 0 => Mode::Detach, 1 => Mode::SyncWait, 4 => Mode::Inline, _ => Mode::Await } }
             };
             let op;
             if k < p.w_desync { op = Op::Desync(q, body(r, false, &mut nev, &mut fires)); }
@@ -396,7 +413,7 @@ pub fn generate(p: &Profile, r: &mut Rng) -> Program {
             else { k -= p.w_try;
             if k < p.w_fd { let b = body(r, true, &mut nev, &mut fires); op = Op::FutDesync(q, b, fmode(r)); }
             else { k -= p.w_fd;
-            if k < p.w_fs { let b = body(r, true, &mut nev, &mut fires); let m = if r.chance(p.poll_drop, 100) { Mode::PollDrop(r.below(4)) } else { Mode::Await }; op = Op::FutSync(q, b, m); }
+            if k < p.w_fs { let b = body(r, true, &mut nev, &mut fires); let m = if r.chance(p.poll_drop, 100) { let n = r.below(4); if r.chance(1, 3) { Mode::PollDropLate(n, 2 + r.below(8)) } else { Mode::PollDrop(n) } } else { Mode::Await }; op = Op::FutSync(q, b, m); }
             else { k -= p.w_fs;
             if k < p.w_after { let e = nev; nev += 1; fires.push(e); op = Op::After(q, e, fmode(r)); }
             else { k -= p.w_after;
@@ -409,6 +426,8 @@ pub fn generate(p: &Profile, r: &mut Rng) -> Program {
         if c == 0 { for g in 0..ngates { ops.push(Op::Open(g)); } }
         callers.push(ops);
     }
+    // now and then a second kind of object: a value without drop glue dropped with work queued (its drop must wait all the same)
+    if p.w_drop > 0 && r.chance(1, 4) { let c = r.below(callers.len()); let at = r.below(callers[c].len() + 1); callers[c].insert(at, Op::PlainDrop(1 + r.below(4))); }
     // Events are fired by a dedicated extra caller so that a caller awaiting a future is never the one that must fire it
     if !fires.is_empty() {
         let mut f: Vec<Op> = fires.iter().map(|e| Op::Fire(*e)).collect();
